@@ -16,12 +16,16 @@ import (
 func c05Code(c *Ctx, ev *c05Eval) {
 	c.Rule("R05g", "the PE image hash leaves out exactly CheckSum and the certificate-table directory entry as debug/pe lays them out; 24, 88, 40 and the 8-byte padding are the sizes the PE/COFF structures give", 8)
 	c.Rule("R05h", "APK v2 chunk and top-level prefixes, chunk size, block ID and magic are those of the scheme", 5)
-	c.Rule("R05i", "CMS signed attributes are added under their RFC 5652 identifiers and digested with the SET OF tag", 3)
+	c.Rule("R05i", "CMS signed attributes are added under their RFC 5652 identifiers and digested with the SET OF tag in the order they are emitted in", 4)
 	c.Rule("R05j", "RSA-PSS parameters name MGF1 over the same hash with trailer field 1", 3)
+	c.Rule("R05k", "JAR signature-file attribute names are the ones the JAR specification defines", 4)
+	c.Rule("R05l", "an RFC 3161 request is version 1 and is posted as application/timestamp-query", 2)
+	c.Rule("R05m", "the dpkg-sig control block has the fields dpkg-sig reads, in its order, in a member named _gpg<role>", 6)
 	c05PE(c)
 	c05APK(c)
 	c05CMS(c, ev)
 	c05PSS(c, ev)
+	c05Strings(c)
 }
 
 // ------------------------------------------------------------------------------ R05g
@@ -541,6 +545,47 @@ func c05CMS(c *Ctx, ev *c05Eval) {
 	if !found {
 		c.Undecided("R05i", "SET OF tag", "-", "no function of lib/pkcs7 that marshals and then rewrites the first byte was found (marshalUnsortedSet did)")
 	}
+	// the attributes are digested in the order in which they are emitted: the list is written out
+	// as it stands (no `set` parameter on the field, which would sort), so nothing on the way to the
+	// digested bytes may reorder it either
+	var roots []*ssa.Function
+	for _, name := range []string{"lib/pkcs7.(*AttributeList).Bytes", "lib/pkcs7.(SignerInfo).AuthenticatedAttributesBytes"} {
+		if f := p.Func(name); f != nil {
+			roots = append(roots, f)
+		}
+	}
+	if len(roots) < 2 {
+		c.Undecided("R05i", "attribute digest functions", "-", "AttributeList.Bytes / SignerInfo.AuthenticatedAttributesBytes not found")
+		return
+	}
+	var reach []*ssa.Function
+	for f := range p.moduleReachOpt(roots, false) {
+		reach = append(reach, f)
+	}
+	sort.Slice(reach, func(i, j int) bool { return p.FName(reach[i]) < p.FName(reach[j]) })
+	bad := ""
+	for _, f := range reach {
+		c.Analysed(p.FName(f))
+		for _, b := range f.Blocks {
+			for _, in := range b.Instrs {
+				ci, ok := in.(ssa.CallInstruction)
+				if !ok {
+					continue
+				}
+				name := p.calleeName(ci.Common())
+				switch {
+				case strings.HasPrefix(name, "sort.") || strings.HasPrefix(name, "slices.Sort"):
+					bad = fmt.Sprintf("%s calls %s at %s", p.FName(f), name, p.Pos(in.Pos()))
+				case name == "encoding/asn1.MarshalWithParams":
+					if prm, ok := constString(ci.Common().Args[1]); ok && strings.Contains(prm, "set") {
+						bad = fmt.Sprintf("%s marshals with the `set` parameter (which sorts) at %s", p.FName(f), p.Pos(in.Pos()))
+					}
+				}
+			}
+		}
+	}
+	c.Check(bad == "", "R05i", "the attributes are digested in the order they are emitted in", p.Pos(roots[0].Pos()), fmt.Sprintf("%d functions on the digest path, none reorders", len(reach)),
+		"the bytes the signature is computed over are put in a different order than the attributes have in the message ("+bad+"): RFC 5652 5.4 digests the DER encoding of the signedAttrs field as it is sent, so OpenSSL recomputes the digest over the emitted order and reports a bad signature whenever that order is not already sorted")
 }
 
 // ------------------------------------------------------------------------------ R05j
@@ -591,4 +636,131 @@ func c05PSS(c *Ctx, ev *c05Eval) {
 		})
 	}
 	c.Check(same, "R05j", "MGF1 is parameterised with the signature's hash", p.Pos(fn.Pos()), "", "the hash named in maskGenAlgorithm is not the encoding of hashAlgorithm: OpenSSL and the JDK reject PSS signatures whose two hashes differ (and relic's own parser does too)")
+}
+
+// ------------------------------------------------------------------------------ R05k-m
+
+// orderedStringConsts: constant string operands of the instructions of fn, in source order.
+func orderedStringConsts(p *Prog, fn *ssa.Function) (out []struct {
+	s  string
+	in ssa.Instruction
+}) {
+	type item = struct {
+		s  string
+		in ssa.Instruction
+	}
+	var items []item
+	for _, b := range fn.Blocks {
+		for _, in := range b.Instrs {
+			for _, op := range in.Operands(nil) {
+				if op == nil || *op == nil {
+					continue
+				}
+				if s, ok := constString(*op); ok {
+					items = append(items, item{s, in})
+				}
+			}
+		}
+	}
+	sort.SliceStable(items, func(i, j int) bool { return items[i].in.Pos() < items[j].in.Pos() })
+	for _, it := range items {
+		out = append(out, struct {
+			s  string
+			in ssa.Instruction
+		}{it.s, it.in})
+	}
+	return out
+}
+
+func c05Strings(c *Ctx) {
+	p := c.P
+	// R05k: JAR
+	if fn := p.Func("lib/signjar.DigestManifest"); fn == nil {
+		c.Undecided("R05k", "signjar.DigestManifest", "-", "function not found")
+	} else {
+		c.Analysed(p.FName(fn))
+		allowed := map[string]bool{"-Digest": true, "-Digest-Manifest": true, "-Digest-Manifest-Main-Attributes": true}
+		seen := map[string]bool{}
+		for _, it := range orderedStringConsts(p, fn) {
+			switch {
+			case strings.HasPrefix(it.s, "-Digest"):
+				seen[it.s] = true
+				c.Check(allowed[it.s], "R05k", "digest attribute suffix "+it.s, p.Pos(it.in.Pos()), "", fmt.Sprintf("the signature file names a digest attribute <alg>%s; the JAR specification defines <alg>-Digest, <alg>-Digest-Manifest and <alg>-Digest-Manifest-Main-Attributes: jarsigner ignores attributes it does not know and reports the entries as unsigned", it.s))
+			case strings.HasPrefix(it.s, "Signature-Version"):
+				seen["Signature-Version"] = true
+				c.Check(it.s == "Signature-Version", "R05k", "signature file starts with Signature-Version", p.Pos(it.in.Pos()), "", "the main attribute of a .SF file is Signature-Version")
+			case it.s == "1.0":
+				seen["1.0"] = true
+			}
+		}
+		for _, want := range []string{"-Digest", "-Digest-Manifest-Main-Attributes", "Signature-Version", "1.0"} {
+			if !seen[want] {
+				c.Fail("R05k", "signature file writes "+want, p.Pos(fn.Pos()), "DigestManifest no longer writes "+want+": a .SF file needs Signature-Version: 1.0, a digest of the main attributes and one <alg>-Digest per section")
+			}
+		}
+	}
+	// R05l: RFC 3161
+	n := 0
+	for _, fn := range p.pkgFuncs("lib/pkcs9") {
+		// the function that builds a TimeStampReq
+		builds := false
+		for _, b := range fn.Blocks {
+			for _, in := range b.Instrs {
+				if a, ok := in.(*ssa.Alloc); ok && strings.HasSuffix(derefType(a.Type()).String(), "pkcs9.TimeStampReq") {
+					builds = true
+				}
+			}
+		}
+		if !builds {
+			continue
+		}
+		for _, b := range fn.Blocks {
+			for _, in := range b.Instrs {
+				if st, ok := in.(*ssa.Store); ok {
+					if tn, f, _ := p.fieldAddr(st.Addr); strings.HasSuffix(tn, "pkcs9.TimeStampReq") && f == "Version" {
+						n++
+						c.Analysed(p.FName(fn))
+						c.Check(isIntConst(st.Val, 1), "R05l", p.FName(fn)+" request version", p.Pos(st.Pos()), "", "RFC 3161 2.4.1: the request version is 1; a timestamp authority rejects anything else")
+					}
+				}
+			}
+		}
+		for _, ci := range p.callsIn(fn, "(net/http.Header).Set") {
+			if k, ok := constString(ci.Common().Args[1]); ok && k == "Content-Type" {
+				v, _ := constString(ci.Common().Args[2])
+				n++
+				c.Check(v == "application/timestamp-query", "R05l", p.FName(fn)+" content type", p.Pos(ci.Pos()), v, fmt.Sprintf("the request is posted as %q; RFC 3161 3.4 prescribes application/timestamp-query and authorities answer anything else with an HTTP error", v))
+			}
+		}
+	}
+	if n < 2 {
+		c.Undecided("R05l", "RFC 3161 request builder", "-", fmt.Sprintf("%d facts found (version and content type expected)", n))
+	}
+	// R05m: dpkg-sig
+	if fn := p.Func("lib/signdeb.Sign"); fn == nil {
+		c.Undecided("R05m", "signdeb.Sign", "-", "function not found")
+	} else {
+		c.Analysed(p.FName(fn))
+		want := []string{"Version: 4", "Signer:", "Date:", "Role:", "Files: "}
+		var got []string
+		prefix := ""
+		for _, it := range orderedStringConsts(p, fn) {
+			for _, w := range []string{"Version:", "Signer:", "Date:", "Role:", "Files:"} {
+				if strings.HasPrefix(it.s, w) {
+					got = append(got, it.s)
+				}
+			}
+			if strings.HasPrefix(it.s, "_gpg") && prefix == "" {
+				prefix = it.s
+			}
+		}
+		for i, w := range want {
+			g := ""
+			if i < len(got) {
+				g = got[i]
+			}
+			c.Check(g == w, "R05m", fmt.Sprintf("control block line %d is %q", i+1, w), p.Pos(fn.Pos()), g, fmt.Sprintf("line %d of the signed control block is %q; dpkg-sig writes and reads %q at that place (Version: 4, Signer, Date, Role, Files): dpkg-sig --verify does not recognise the member", i+1, g, w))
+		}
+		c.Check(prefix == "_gpg", "R05m", "signature member is named _gpg<role>", p.Pos(fn.Pos()), prefix, "dpkg-sig looks for archive members named _gpg followed by the role")
+	}
 }
